@@ -283,6 +283,7 @@ def write_evidence(path, prop, tier, seed, results, extras, wall, violations=0, 
             solver_ms += o.get('ms') or 0
         for o in r.get('obligations', [])[:2]:
             samples.append({'obligation': o['name'], 'kind': o['kind'], 'verdict': o['verdict'], 'by': o['by'], 'ms': o['ms']})
+    slow = sorted(({'obligation': o['name'], 'ms': o.get('ms') or 0, 'by': o.get('by')} for r in results for o in r.get('obligations', [])), key=lambda d: -d['ms'])[:8]
     bounded = [e for e in extras if e.get('level') == 'bounded']
     ev = {
         'property_id': prop, 'tier': tier, 'seed': seed, 'level': 'proof',
@@ -294,6 +295,7 @@ def write_evidence(path, prop, tier, seed, results, extras, wall, violations=0, 
             'functions_under_contract': funcs,
             'discharged_by_backend': by, 'solver_time_ms': solver_ms,
             'samples': samples[:12],
+            'slowest_obligations': slow,
             'undecided': [list(map(str, u)) for u in undecided][:50],
             'bounded_standins': bounded,
             'extra_stages': [e for e in extras if e.get('level') != 'bounded'],
